@@ -4,7 +4,7 @@
      Dictionary => remove every entry whose value is Reference(id)
      _          => {}                     -- stream dictionaries and top-level references untouched
    and the trailer's own entries are never looked at (traverse_objects applies the action to its values). *)
-From LV Require Import Base.Bytes Model.Obj Model.DocQ Model.Traverse Model.Edit.
+From LV Require Import Base.Bytes Model.Obj Model.DocQ Model.PageTree Model.Traverse Model.Edit.
 
 Fixpoint strip_v0 (id : oid) (o : obj) : obj :=
   match o with
@@ -90,3 +90,99 @@ Definition add_resource_v0 (follow : bool) (key : bytes) (d : doc) (page : oid) 
     end
   end.
 Definition add_xobject_v0 := add_resource_v0 true K_XObject.
+
+(* change_page_content of src/processor.rs and add_page_contents of src/document.rs on the PINNED tree, before the repairs of
+   C11-content-indirect and C11-content-shared (kept for the refutation theorems only): Contents is looked at without following
+   references -- a reference is taken to name a stream, an array to hold such references -- and the one stream of a page is
+   rewritten in place whoever else shows it. *)
+Definition change_page_content_v0 (O : oracles) (d : doc) (page : oid) (content : bytes) : doc * out :=
+  match get_dictionary (d_objects d) page with
+  | None => (d, OErr)
+  | Some pd =>
+    match dict_get pd K_Contents with
+    | None => (d, OErr)
+    | Some (ORef i g) => (change_content_stream O d (i, g) content, OOk)
+    | Some (OArr [x]) =>
+      match x with
+      | ORef i g => (change_content_stream O d (i, g) content, OOk)
+      | _ => (d, OOk)
+      end
+    | Some (OArr _) =>
+      match add_object d (new_stream content) with
+      | None => (d, OPanic)
+      | Some (d1, nid) =>
+        match set_page_entry (d_objects d1) page K_Contents (ORef (fst nid) (snd nid)) with
+        | Some m2 => (with_objs d1 m2, OOk)
+        | None => (d1, OOk)
+        end
+      end
+    | Some _ => (d, OOk)
+    end
+  end.
+
+Definition add_page_contents_v0 (d : doc) (page : oid) (content : bytes) : doc * out :=
+  match get_dictionary (d_objects d) page with
+  | None => (d, OErr)
+  | Some pd =>
+    let cur := match dict_get pd K_Contents with
+               | Some (ORef i g) => [ORef i g]
+               | Some (OArr l) => l
+               | _ => []
+               end in
+    match add_object d (new_stream content) with
+    | None => (d, OPanic)
+    | Some (d1, nid) =>
+      match set_page_entry (d_objects d1) page K_Contents (OArr (cur ++ [ORef (fst nid) (snd nid)])) with
+      | Some m2 => (with_objs d1 m2, OOk)
+      | None => (d1, OErr)
+      end
+    end
+  end.
+
+(* delete_pages of src/processor.rs on the PINNED tree, before the repairs of C11-count-indirect and C11-page-reference-object
+   (kept for the refutation theorems only): the Count of an ancestor is decremented only when the entry is an integer in the
+   dictionary itself (as_i64 on the entry), and the Parent chain is entered only when the object stored under the page id is the
+   page dictionary itself (as_dict on the removed object). *)
+Fixpoint count_loop_v0 (fuel : nat) (m : objmap) (r : option oid) : objmap * loop_res :=
+  match r with
+  | None => (m, LOk)
+  | Some id =>
+    match fuel with
+    | O => (m, LHang)
+    | S k =>
+      match lookup m id with
+      | Some (ODict pt) =>
+        match dict_get pt K_Count with
+        | Some (OInt c) =>
+          if (c =? I64_MIN)%Z then (m, LPanic)
+          else let pt' := dict_set pt K_Count (OInt (c - 1)) in
+               count_loop_v0 k (update m id (ODict pt')) (as_ref (dict_get pt' K_Parent))
+        | _ => count_loop_v0 k m (as_ref (dict_get pt K_Parent))
+        end
+      | _ => (m, LOk)
+      end
+    end
+  end.
+
+Fixpoint delete_pages_loop_v0 (pages : list (N * oid)) (nums : list N) (d : doc) : doc * loop_res :=
+  match nums with
+  | [] => (d, LOk)
+  | n :: ns =>
+    match assoc_N pages n with
+    | None => delete_pages_loop_v0 pages ns d
+    | Some pid =>
+      match delete_object d pid with
+      | None => (d, LFuel)
+      | Some (d1, None) => delete_pages_loop_v0 pages ns d1
+      | Some (d1, Some page) =>
+        let r := match page with ODict pd => as_ref (dict_get pd K_Parent) | _ => None end in
+        let '(m2, lr) := count_loop_v0 (S (length (d_objects d1))) (d_objects d1) r in
+        match lr with
+        | LOk => delete_pages_loop_v0 pages ns (with_objs d1 m2)
+        | _ => (with_objs d1 m2, lr)
+        end
+      end
+    end
+  end.
+
+Definition delete_pages_v0 (d : doc) (nums : list N) : doc * loop_res := delete_pages_loop_v0 (get_pages d) nums d.
